@@ -83,6 +83,134 @@ Proof.
   intros l z R I. unfold decode. rewrite (reads_decimal_decode_raw l z R), I. reflexivity.
 Qed.
 
+(* ---- the converse: whatever the decimal decoding accepts says a number ---- *)
+
+(* a character the decimal Horner loop accepts is a decimal digit *)
+Lemma digit_of_dec_inv : forall b d,
+  digit_of b = Some d -> (d <? 10) = true -> is_dec_digit d /\ b = 48 + d.
+Proof.
+  intros b d H L. apply Z.ltb_lt in L. unfold digit_of in H. unfold is_dec_digit.
+  destruct ((48 <=? b) && (b <=? 57)) eqn:E1.
+  { apply andb_prop in E1. destruct E1 as [A B]. apply Z.leb_le in A. apply Z.leb_le in B.
+    injection H as <-. lia. }
+  destruct ((97 <=? b) && (b <=? 102)) eqn:E2.
+  { apply andb_prop in E2. destruct E2 as [A B]. apply Z.leb_le in A. injection H as <-. lia. }
+  destruct ((65 <=? b) && (b <=? 70)) eqn:E3; [|discriminate].
+  apply andb_prop in E3. destruct E3 as [A B]. apply Z.leb_le in A. injection H as <-. lia.
+Qed.
+
+Lemma digits_val_dec_inv : forall l acc u,
+  digits_val 10 acc l = Some u ->
+  exists ds, Forall is_dec_digit ds /\ l = map (fun d => 48 + d) ds /\
+             u = acc * 10 ^ Z.of_nat (length ds) + pos_val ds.
+Proof.
+  induction l as [|b r IH]; intros acc u H.
+  - cbn [digits_val] in H. injection H as <-. exists []. split; [constructor|]. split; [reflexivity|].
+    cbn [length pos_val Z.of_nat]. rewrite Z.pow_0_r. lia.
+  - cbn [digits_val] in H.
+    destruct (digit_of b) as [d|] eqn:Ed; [|discriminate].
+    destruct (d <? 10) eqn:L; [|discriminate].
+    destruct (digit_of_dec_inv b d Ed L) as [Hd ->].
+    destruct (IH _ _ H) as (ds & F & -> & ->).
+    exists (d :: ds). split; [constructor; assumption|]. split; [reflexivity|].
+    cbn [length pos_val]. rewrite Nat2Z.inj_succ, Z.pow_succ_r by lia. lia.
+Qed.
+
+Lemma unsigned_dec_inv : forall r u,
+  unsigned_val Decimal r = Some u ->
+  exists ds, ds <> [] /\ Forall is_dec_digit ds /\ r = map (fun d => 48 + d) ds /\ u = pos_val ds.
+Proof.
+  intros r u H. unfold unsigned_val, nonempty_val in H.
+  destruct r as [|b r']; [discriminate|].
+  destruct (digits_val_dec_inv _ _ _ H) as (ds & F & E & ->).
+  exists ds. split; [intros ->; discriminate|]. split; [exact F|]. split; [exact E|]. lia.
+Qed.
+
+Lemma split_sign_inv : forall l neg r,
+  split_sign l = (neg, r) -> exists sg, sign_text sg neg /\ l = sg ++ r.
+Proof.
+  intros l neg r H. unfold split_sign in H. destruct l as [|b l'].
+  { injection H as <- <-. exists []. split; [constructor|reflexivity]. }
+  destruct (b =? 43) eqn:E1.
+  { apply Z.eqb_eq in E1. subst b. injection H as <- <-. exists [43]. split; [constructor|reflexivity]. }
+  destruct (b =? 45) eqn:E2.
+  { apply Z.eqb_eq in E2. subst b. injection H as <- <-. exists [45]. split; [constructor|reflexivity]. }
+  injection H as <- <-. exists []. split; [constructor|reflexivity].
+Qed.
+
+(* what the decimal decoding returns is the number the text says *)
+Lemma decode_raw_reads_decimal : forall l z,
+  decode_raw Decimal l = Some z -> reads_decimal l z.
+Proof.
+  intros l z H. unfold decode_raw in H.
+  destruct (split_sign l) as [neg r] eqn:S.
+  destruct (unsigned_val Decimal r) as [u|] eqn:U; [|discriminate].
+  injection H as <-.
+  destruct (split_sign_inv l neg r S) as (sg & Hsg & ->).
+  destruct (unsigned_dec_inv r u U) as (ds & Hne & F & -> & ->).
+  exists sg, neg, ds. repeat split; assumption.
+Qed.
+
+(* [decode Decimal] characterised completely: it returns [z] exactly for the
+   texts that say [z] (optional sign, decimal digits, positional value) with [z]
+   an int64 *)
+Lemma decode_decimal_iff : forall l z,
+  decode Decimal l = Some z <-> reads_decimal l z /\ in_int64 z = true.
+Proof.
+  intros l z. split.
+  - intros H. unfold decode in H.
+    destruct (decode_raw Decimal l) as [z'|] eqn:R; [|discriminate].
+    destruct (in_int64 z') eqn:I; [|discriminate].
+    injection H as <-. split; [exact (decode_raw_reads_decimal l z' R)|exact I].
+  - intros [R I]. exact (reads_decimal_decodes l z R I).
+Qed.
+
+(* a text that says no int64 number is rejected *)
+Lemma decode_decimal_rejects : forall l,
+  (forall z, reads_decimal l z -> in_int64 z = false) -> decode Decimal l = None.
+Proof.
+  intros l H. destruct (decode Decimal l) as [z|] eqn:D; [|reflexivity].
+  apply decode_decimal_iff in D. destruct D as [R I]. rewrite (H z R) in I. discriminate.
+Qed.
+
+(* ... and then there is no watcher *)
+Lemma settings_of_rejects : forall ts l,
+  In l [t_i ts; t_n ts; t_p ts; t_c ts] ->
+  decode Decimal l = None -> settings_of Decimal ts = None.
+Proof.
+  intros ts l HIn D. unfold settings_of. cbn [In] in HIn.
+  destruct HIn as [<-|[<-|[<-|[<-|[]]]]]; rewrite D.
+  - reflexivity.
+  - destruct (decode Decimal (t_i ts)); reflexivity.
+  - destruct (decode Decimal (t_i ts)); [destruct (decode Decimal (t_n ts))|]; reflexivity.
+  - destruct (decode Decimal (t_i ts)); [destruct (decode Decimal (t_n ts));
+      [destruct (decode Decimal (t_p ts))|]|]; reflexivity.
+Qed.
+
+(* witnesses: texts that say no number at all, and one that says a number
+   beyond int64 *)
+Lemma says_nothing : forall l,
+  decode_raw Decimal l = None -> forall z, ~ reads_decimal l z.
+Proof. intros l H z R. rewrite (reads_decimal_decode_raw l z R) in H. discriminate. Qed.
+
+Lemma blank_says_nothing : forall z, ~ reads_decimal [32; 49; 48] z.
+Proof. apply says_nothing. reflexivity. Qed.
+
+Lemma hex_says_nothing : forall z, ~ reads_decimal [48; 120; 49; 48] z.
+Proof. apply says_nothing. reflexivity. Qed.
+
+Lemma empty_says_nothing : forall z, ~ reads_decimal [] z.
+Proof. apply says_nothing. reflexivity. Qed.
+
+Definition txt_2p63 : text := [57;50;50;51;51;55;50;48;51;54;56;53;52;55;55;53;56;48;56].
+
+Lemma txt_2p63_says : reads_decimal txt_2p63 9223372036854775808.
+Proof.
+  exists [], false, [9;2;2;3;3;7;2;0;3;6;8;5;4;7;7;5;8;0;8]. split; [constructor|].
+  split; [discriminate|].
+  split; [repeat constructor; unfold is_dec_digit; lia|]. split; reflexivity.
+Qed.
+
 (* seconds that fit a Duration are not wrapped ... *)
 Lemma seconds_fit : forall x, secs_fit x -> seconds x = x * second.
 Proof.
